@@ -195,3 +195,95 @@ hc_prop("C19",
     "Allocator-contract monitor on every free in every scenario + leak check at teardown (scoped live bytes return to the pre-construction value). Miri / ASan runs are listed separately in the evidence when the tier includes them.",
     "checking global allocator (layout match, scoped leak check) over fault-injected executions",
     dict(quick=800, thorough=20000), require=["teardowns_checked", "delivered_multifrag"])
+
+# ---------------------------------------------------------------------------------------------
+# epsim-based properties (real Client / Server objects over the virtual network and clock)
+
+EP_ASSUME = [
+    "virtual socket shim: an in-process datagram network with UDP semantics (boundaries preserved, truncation to the buffer, WouldBlock when empty, connected sockets filter by peer)",
+    "virtual clock / seeded rng shims (cargo feature verif) do not change behaviour other than the time and random source",
+    "histories are recorded at the API boundary (events returned by step(), application calls) and at the socket (every datagram sent / delivered)",
+]
+EPGEN = ("Real uflow::server::Server and uflow::client::Client objects run over the in-process virtual network on the virtual clock; the harness is the network (per-datagram "
+         "loss / duplication / delay / blackouts / targeted drops of the k-th SYN, SYN-ACK or ACK), can inject datagrams with any source address, and records every datagram "
+         "sent and delivered plus every event and application call with virtual timestamps. distinct = hash of the scenario's counters and server event history. ")
+
+def ep(family, q, t, tier, prop, **params):
+    p = {"prop": prop}
+    p.update(params)
+    return dict(family=family, n=T(tier, q, t), params=p)
+
+def ep_prop(pid, runs, rule, level_text, technique, floor, require=None, note=""):
+    PROPS[pid] = dict(runs=runs, rule=EPGEN + rule, level_text=level_text, technique=technique,
+                      level_note=note or "Trusted: the virtual socket/clock/rng shims and the reference wire decoder. Held only on the sessions listed in the evidence.",
+                      floor=floor, require_counters=require or [], assumptions=EP_ASSUME)
+
+ep_prop("C07",
+    lambda tier: [ep("handshake", 700, 30000, tier, "C07", max_clients=T(tier, 6, 24)),
+                  ep("handshake-mismatch", 1500, 50000, tier, "C07"),
+                  ep("lifecycle", 300, 10000, tier, "C07")],
+    "handshake: 1..6 (thorough 24) clients connect at once through loss / duplication / delay of handshake frames and targeted loss of the first 0..11 SYNs, SYN-ACKs or ACKs, nonces incl. 0, 2^32-1 and 20-bit wrap values; run twice, the second time with forged frames from spoofed sources (SYN-ACK / ACK / error with nonces that were never issued, verbatim replays of earlier genuine handshake frames incl. SYNs, SYNs for tracked addresses, misdirected frames), followed by an echo of packets of every mode and one of the maximum size. handshake-mismatch: a grid of client/server limits and a raw wrong-version peer. non-trivial: >= 1 forged / duplicated handshake frame reached an endpoint or >= 1 handshake frame lost.",
+    "Wire-level reference check at every Connect (server: an ACK echoing a nonce it sent to that address was delivered; client: a SYN-ACK echoing its SYN nonce was delivered), at every handshake Error event (a matching error frame echoing the nonce was delivered), first data frame ids equal the exchanged nonces, at most one Connect per address, no Disconnect / handshake error on an established connection, refusals carry the right error. Twin equality of whole histories was dropped (duplicates legitimately change timing); the invariants run on both runs.",
+    "history oracle on handshake wire trace + forged-frame injection",
+    dict(quick=800, thorough=20000), require=["c07_server_connects_checked", "c07_client_connects_checked", "c07_first_data_frames_checked", "replayed_genuine_handshake_frame", "forged_ack_wrong_nonce", "c07_mismatch_cases_checked"])
+
+ep_prop("C08",
+    lambda tier: [ep("lifecycle", 1500, 60000, tier, "C08", max_clients=T(tier, 4, 16)),
+                  ep("disconnect", 600, 20000, tier, "C08"),
+                  ep("limits", 300, 10000, tier, "C08"),
+                  ep("timers", 300, 10000, tier, "C08")],
+    "lifecycle: random interleavings of send / disconnect / disconnect_now / drop / Server::drop / flush on 1..4 (thorough 16) clients and the server, faults on every frame type incl. blackouts, reconnects from the same address 0 ms..30 s after each kind of ending, finished clients stepped on for seconds. non-trivial: a connection reached Connect on the server and ended.",
+    "Online automaton over every event returned by step(): Idle -Connect-> Up -Receive*-> Up -Disconnect|Error-> End, Idle -Error-> End, nothing after End; per client object and per address on the server (a new instance only after End; Server::drop counts as End).",
+    "online event-stream automaton",
+    dict(quick=800, thorough=20000), require=["srv_connect", "srv_disconnect", "cli_disconnect", "client_objects_created"])
+
+ep_prop("C09",
+    lambda tier: [ep("disconnect", 2500, 80000, tier, "C09"),
+                  ep("lifecycle", 800, 30000, tier, "C09")],
+    "disconnect: one side queues 0..500 packets of all modes (<= 20 kB) and calls disconnect(), with loss / duplication / delay of data, acks, Disconnect and DisconnectAck, blackouts (one or both ways) right after the call, both sides calling in 15 % of the cases. non-trivial: a flush obligation (Reliable packet queued before the call) was checked, or a Disconnect exchange took place with queued data.",
+    "History check: the peer's Disconnect event comes after the Receive of every Reliable packet submitted before disconnect() (void if the peer disconnected / dropped first, or the caller escalated to disconnect_now / drop); both ends reach a terminal event within 22 s (or their active timeout) + 12 step intervals of the first Disconnect frame (an endpoint whose own request went out later gets the budget of its own request); disconnect_now() puts the request on the wire by the caller's next step; nothing after the terminal event (C08 automaton).",
+    "history oracle on event order and virtual-time budget",
+    dict(quick=800, thorough=20000), require=["c09_flush_obligations_checked", "c09_disconnect_exchanges", "c09_disconnect_now_checked"])
+
+ep_prop("C10",
+    lambda tier: [ep("timers", 3000, 100000, tier, "C10")],
+    "timers: one client and a server with active timeouts 1..120 s, keepalive on/off with intervals 0.5..30 s, SYN / SYN-ACK / ACK lost 0..11 times (handshakes lasting 0..22 s), step cadences 1 ms..1 s, busy then idle phases, a total or one-way blackout from a random moment. non-trivial: a timeout fired, or the connection stayed idle for >= 3 timeouts.",
+    "Reference timer model from the relayed frames and step times: Error(Timeout) on an established connection only at a step where the last read of a Data/Ack/Sync frame (or the establishing handshake frame) is >= active_timeout_ms ago, and at the first such step; handshake attempts end with Timeout after exactly 1+10 SYNs and not before 22 s; server-side pending entries after 11 SYN-ACKs; SYN resends never closer than 2 s; with keepalive on (both directions inside the documented max(interval, 2 s, RTO) pace) an idle connection on a loss-free network never times out.",
+    "reference timer model over recorded deliveries and step times",
+    dict(quick=1500, thorough=30000), require=["c10_timeouts_checked", "c10_handshake_timeouts_checked", "c10_keepalive_cases_checked"])
+
+ep_prop("C17",
+    lambda tier: [ep("limits", 2500, 80000, tier, "C17")],
+    "limits: max_active 1..8, max_total up to 16, 1..40 clients arriving in bursts, staggered or in waves; all first ACKs lost (many SYNs before any ACK), lossy handshakes; connections ended by disconnect from either side, Client drop, Server::drop or silent death (timeout); finally everything ends and, 50 s later, a fresh client must connect. non-trivial: more clients than max_active and >= 1 connection ended by the script.",
+    "Counters after every server call: connections between Connect and their terminal event / the server's own Disconnect <= max_active_connections; addresses for which Server::client() is Some <= max_total_connections; ServerFull refusals are mirrored by server error events when enabled; capacity is available again after everything ended.",
+    "online counters over the server's event stream and public lookup",
+    dict(quick=1200, thorough=30000), require=["c17_refused_with_serverfull", "c17_capacity_reuse_checked", "c17_connections_ended_by_script"])
+
+ep_prop("C18",
+    lambda tier: [ep("amplify", 3000, 100000, tier, "C18"),
+                  ep("handshake", 200, 10000, tier, "C18"),
+                  ep("limits", 200, 10000, tier, "C18")],
+    "amplify: 1..30 spoofable addresses each send 1..25 datagrams over 28 s: valid SYNs (same and fresh nonce), wrong-version and configuration-refused SYNs, SYN-typed datagrams of every length 5..1471 with a valid CRC, oversized datagrams, stray frames of every other type; default and full servers; 55 s of server time so every SYN-ACK resend happens. non-trivial: the server sent >= 1 byte to a spoofable address.",
+    "Per-address byte counters kept by the virtual network, checked after every server call: for an address that has not completed the handshake, bytes sent to it stay below bytes received from it; an address that only sent undersized SYN-typed datagrams receives nothing.",
+    "byte-accounting monitor at the virtual socket",
+    dict(quick=1500, thorough=30000), require=["amp_undersized_syn", "amp_valid_syn_same_nonce", "c18_addresses_that_got_a_reply", "c18_undersized_only_addresses_checked"])
+
+# endpoint-level workloads join C03 and C11
+_c03_runs = PROPS["C03"]["runs"]
+PROPS["C03"]["runs"] = lambda tier: _c03_runs(tier) + [
+    dict(family="ep-hostile", n=T(tier, 300, 10000), params={"frames": 600}),
+    dict(family="ep-hostile", n=T(tier, 200, 5000), params={"frames": 600}, flavour="checked"),
+    dict(family="lifecycle", n=T(tier, 200, 5000), params={}, flavour="checked"),
+    dict(family="handshake", n=T(tier, 100, 3000), params={}, flavour="checked"),
+    dict(family="amplify", n=T(tier, 200, 5000), params={}, flavour="checked"),
+    dict(family="timers", n=T(tier, 200, 5000), params={}, flavour="checked"),
+]
+PROPS["C03"]["rule"] += (" ep-hostile: a real Server with an honest bystander client, attacked by a raw peer that completes the handshake by hand (hostile limits incl. 0 and 2^32-1) and then sends "
+                         "frames composed against the server-side connection state, plus spoofed strangers; or a real Client facing a raw hostile server. After the attack the bystander must still be "
+                         "connected and delivering, and a fresh client must connect within 30 s.")
+PROPS["C03"]["require_counters"] += ["c03_honest_bystanders_checked", "c03_post_attack_connects_checked", "c03_hostile_server_sessions"]
+_c11_runs = PROPS["C11"]["runs"]
+PROPS["C11"]["runs"] = lambda tier: _c11_runs(tier) + [ep("ep-recover", 400, 15000, tier, "C11")]
+PROPS["C11"]["rule"] += (" ep-recover: real Client/Server sessions (timeouts 20 s, keepalive 2 s) hit by one finite fault (first handshake ACKs lost, a blackout or loss burst of 0.1..6 s, loss at the start); afterwards the "
+                         "connection must still be alive at +120 s and probe packets of each mode submitted 30..60 s after the network turned fair must arrive once the backlog has drained.")
+PROPS["C11"]["require_counters"] += ["c11_established_connections_watched"]
